@@ -15,6 +15,9 @@ Ops (JSON lists; a *seg* is [h, t|None] = flow.Segment(h, t)):
   ['sub', s, j, p, i]  = s[j].subscribe(p[i])      ['train', n, tp, ti, lp, li] = n.train(tp[ti], lp[li])
   ['pub', p, i, s, k]  = p[i].publish(s, Apply(k))  (the publishing side of the port API: a Future subscriber
                          registers the publisher under an Apply-typed index)
+  ['pubp', p, i, s, c] = p[i].publish(s, port)      the raw port API for every port kind: c = 0 Train(), 1 Label(),
+                         k+2 Apply(k) (Worker.train always makes both of Train and Label; this makes them one by one,
+                         in any order, on workers and through Futures)
   ['segment', h, t|None] = flow.Segment(h, t)      ['validate', h, t|None] = Segment(h, t).accept(Validator())
   ['copy', h, t|None] = Segment(h, t).copy()       (new nodes are numbered in the order of their originals)
   ['extend', h, t|None, seg|None, x|None] = Segment(h, t).extend(Segment(*seg), x)
@@ -81,7 +84,7 @@ def walk(op, f):
         return list(op)
     if k == 'fork':
         return ['fork', f(op[1])]
-    if k in ('sub', 'pub'):
+    if k in ('sub', 'pub', 'pubp'):
         return [k, f(op[1]), op[2], f(op[3]), op[4]]
     if k == 'train':
         return ['train', f(op[1]), f(op[2]), op[3], f(op[4]), op[5]]
@@ -310,6 +313,10 @@ class Real:
             if k == 'pub':
                 nodes[op[1]][op[2]].publish(nodes[op[3]], env['port'].Apply(op[4]))
                 return ['ok'], None
+            if k == 'pubp':
+                prt = env['port'].Train() if op[4] == T else env['port'].Label() if op[4] == L else env['port'].Apply(op[4] - 2)
+                nodes[op[1]][op[2]].publish(nodes[op[3]], prt)
+                return ['ok'], None
             if k == 'train':
                 nodes[op[1]].train(nodes[op[2]][op[3]], nodes[op[4]][op[5]])
                 return ['ok'], None
@@ -503,6 +510,9 @@ def judge(op, res, cls, before, after, orph=(0, 0), fports=False) -> list[tuple[
         if not any(s == sig for s, _ in invariants(before)):
             # (the shared-placeholder-port root cause is the same whatever call delivers the subscriber)
             full = sig if sig == 'I1-two-publishers-shared-future-port' else f'{sig}-{route}'
+            if kind == 'pubp' and op[4] < 2 and sig == 'I4-group-trained-twice':
+                # Subscription.__new__ has no group rule, Worker.train alone checks it (finding C11-F6)
+                full = 'I4-raw-port-api-skips-group-rule'
             if fports and sig in ('I1-two-publishers', 'I3-apply-and-train', 'input-registry'):
                 # the exclusivity checks read `_PORTS[subscriber]`; with a Future among its keys that look-up may land
                 # on the Future's entry (Node.__eq__ aliasing): one root cause
@@ -554,7 +564,7 @@ def _segs(op) -> list:
 
 
 def _touches_future(op, dump) -> bool:
-    if op[0] in ('sub', 'pub'):
+    if op[0] in ('sub', 'pub', 'pubp'):
         ns = [op[1], op[3]]
     elif op[0] == 'train':
         ns = [op[1], op[2], op[4]]
@@ -686,6 +696,22 @@ def gen_op(rng: random.Random, real: Real, dump, last_failed, extra_ops: bool, a
         h = rng.randrange(n)
         t = None if rng.random() < 0.6 else rng.randrange(n)
         return [rng.choice(['segment', 'segment', 'validate']), h, t]
+    if r < 0.47 and workers and rng.random() < 0.45:
+        # the raw port API: one of Train / Label (or an Apply port) at a time, to a worker or to a placeholder
+        code = rng.choice([T, T, L, L, L, 2])
+        pubs = [p for p in range(n) if p in futures or (not winfo[p][1] and nodes[p].szout)] if legal else \
+            [p for p in range(n) if nodes[p].szout]
+        if pubs:
+            p = rng.choice(pubs)
+            if rng.random() < 0.2 and futures:
+                fs = [f for f in futures if f != p and (code != L or nodes[f].szout > 1)]
+                if fs:
+                    return ['pubp', p, out_idx(p), rng.choice(fs), code]
+            cands = [w for w in workers if w != p and code not in winfo[w][4] and not any(dump[0][w])
+                     and not any(c >= 2 for c in winfo[w][4])
+                     and not any(winfo[m][1] for m in winfo[w][3] if m != w)] if legal else workers
+            if cands:
+                return ['pubp', p, out_idx(p), rng.choice(cands), code]
     if r < 0.47 and workers:
         # train
         if legal:
@@ -821,9 +847,20 @@ def chain_case(rng: random.Random):
             p.link(rng, futs[b], ln, futs[a], rng.randrange(lanes))
         elif q < 0.8:
             # a trainer fed by the end of the chain, then the trained node publishing into the chain
-            t = p.worker(True, 1, 1)
-            p.ops.append(['train', t, futs[-1], ln, futs[rng.randrange(k)], rng.randrange(lanes)])
+            t = p.worker(rng.random() < 0.8, 1, 1)
+            tp, ti, lp, li = futs[-1], ln, futs[rng.randrange(k)], rng.randrange(lanes)
+            how = rng.random()
+            if how < 0.4:
+                p.ops.append(['train', t, tp, ti, lp, li])
+            else:
+                # through the raw port API: both ports in either order, or just one of them
+                raw = [['pubp', tp, ti, t, T], ['pubp', lp, li, t, L]]
+                rng.shuffle(raw)
+                p.ops += raw if how < 0.7 else raw[:1]
             p.link(rng, t, 0, futs[0], rng.randrange(lanes))
+            if rng.random() < 0.5:
+                f2 = p.fork(t)  # another member of the group must not become trained
+                p.ops.append(['pubp', tp, ti, f2, rng.choice([T, L])] if rng.random() < 0.6 else ['train', f2, tp, ti, lp, li])
         else:
             # an input port that is taken
             p.link(rng, futs[rng.randrange(k)], ln, sinks[rng.randrange(lanes)], 0)
@@ -882,7 +919,12 @@ def pipeline_case(rng: random.Random):
         else:  # a trainer: applier in the apply path, its fork trained from the train and label paths
             w = p.worker(True, 1, 1)
             trainer = p.fork(w)
-            p.ops.append(['train', trainer, scope[1], 0, scope[2], 0])
+            if rng.random() < 0.6:
+                p.ops.append(['train', trainer, scope[1], 0, scope[2], 0])
+            else:
+                raw = [['pubp', scope[1], 0, trainer, T], ['pubp', scope[2], 0, trainer, L]]
+                rng.shuffle(raw)
+                p.ops += raw
             ext = [[w, None], [p.fork(w), None] if rng.random() < 0.7 else None, None]
         p.ops.append(['textend', [[h, None] for h in scope]] + ext)
         trunks.append([[h, None] for h in scope])
@@ -1156,6 +1198,22 @@ CORPUS = [
 ]
 
 
+CORPUS += [
+    # the raw port API: a worker subscribed on its Label port only is trained - it must not publish (directly, through
+    # a placeholder, as a registered publisher), no Apply port, no second Label; Train after Label completes it
+    [['mkworker', False, 1, 1], ['mkworker', True, 1, 1], ['mkfuture', 1, 1], ['mkworker', False, 1, 1],
+     ['pubp', 0, 0, 1, L], ['pub', 1, 0, 3, 0], ['sub', 3, 0, 1, 0], ['sub', 2, 0, 1, 0], ['sub', 3, 0, 2, 0],
+     ['pubp', 0, 0, 1, 2], ['pubp', 0, 0, 1, L], ['pubp', 0, 0, 1, T], ['segment', 0, None], ['validate', 0, None]],
+    # Train only, through a placeholder registered afterwards; a subscriber that publishes cannot become trained
+    [['mkworker', False, 1, 1], ['mkfuture', 2, 2], ['mkworker', True, 1, 1], ['mkworker', False, 1, 1],
+     ['pubp', 1, 0, 2, T], ['pubp', 0, 0, 1, T], ['pubp', 0, 0, 1, L], ['pubp', 1, 1, 2, L], ['sub', 3, 0, 0, 0],
+     ['pubp', 3, 0, 0, L], ['pubp', 2, 0, 3, 0]],
+    # the group rule through the raw port API: a second member of the group (C11-F6), then Worker.train of a third
+    [['mkworker', False, 1, 1], ['mkworker', True, 1, 1], ['fork', 1], ['fork', 1], ['pubp', 0, 0, 1, L],
+     ['train', 2, 0, 0, 0, 0], ['pubp', 0, 0, 2, T], ['train', 3, 0, 0, 0, 0], ['pubp', 0, 0, 1, T]],
+]
+
+
 # sequences with calls that are not modelled (oracle only)
 ORACLE_CORPUS = [
     # a refused self-publish gives the placeholder an entry in _PORTS; a worker that later looks like it (its
@@ -1179,7 +1237,9 @@ class C11(fw.Check):
     DRIVER = 'drv_c11'
     RULE = ('op sequences over a universe of <= 6 created nodes (workers 1:1/2:1/1:2/2:2/0:1/1:0 stateful or not, forks, futures '
             '1:1/2:2/3:3; copies and default trunk placeholders take it to <= 14): create/fork, s[j].subscribe(p[i]) or '
-            'p[i].publish(s, Apply(j)) (either side of the port API), n.train(a[i], b[k]), Segment(h[,t]), '
+            'p[i].publish(s, Apply(j)) (either side of the port API), p[i].publish(s, Train() | Label() | Apply(j)) (the raw '
+            'port API, one port kind at a time, to workers and to placeholders; 45 % of the training calls), '
+            'n.train(a[i], b[k]), Segment(h[,t]), '
             'Segment.accept(Validator), Segment.copy, Segment.extend (node / segment / explicit tail / retrace), '
             'Trunk(apply, train, label) with default placeholders, Trunk.extend, flow.Composition over 1..3 operator trunks; '
             'generated online against the real graph: 70 % of the calls are aimed at legal ones, 30 % uniformly random '
@@ -1288,7 +1348,7 @@ class C11(fw.Check):
                 self.diverge('model answer shape', {'ops': ops}, len(rr), mr)
                 return
             for i, (ra, rb) in enumerate(zip(rr, mr)):
-                if self._outside(ra, rb):
+                if self._outside(ra, rb, ops[i]):
                     self.histogram['compared up to a call outside the modelled domain'] += 1
                     return
                 if not self._same_res(ops[i], ra, rb):
@@ -1301,7 +1361,7 @@ class C11(fw.Check):
             self.diverge('model answer shape', {'ops': ops}, len(r), m if not isinstance(m, list) else len(m))
             return
         for i, (a, b) in enumerate(zip(r, m)):
-            if self._outside(a[0], b[0]):
+            if self._outside(a[0], b[0], ops[i]):
                 self.histogram['compared up to a call outside the modelled domain'] += 1
                 return
             if not self._same_res(ops[i], a[0], b[0]) or a[1:] != b[1:]:
@@ -1309,8 +1369,10 @@ class C11(fw.Check):
                 return
 
     @staticmethod
-    def _outside(ra, rb) -> bool:
+    def _outside(ra, rb, op=None) -> bool:
         """outside the modelled domain: the sequence is compared up to this call"""
+        if op is not None and op[0] == 'pubp' and op[4] < 2 and ra[0] == 'ok' and rb == ['err', 'fork-train']:
+            return True  # the model has the group rule of fixes/C11-group-rule-in-subscription.diff (finding C11-F6)
         return ra[0] == 'approx' or (ra[0] == 'err' and ra[1] == 'class:AssertionError') or \
             (rb[0] == 'err' and rb[1] == 'aliased')
 
@@ -1365,6 +1427,7 @@ class C11(fw.Check):
         alphabet += [['pub', 1, 0, 2, 0], ['pub', 2, 0, 3, 0], ['pub', 2, 0, 0, 0]]
         alphabet += [['train', 0, 1, 0, 1, 0], ['train', 0, 2, 0, 1, 0], ['train', 3, 1, 0, 2, 0], ['train', 0, 1, 0, 0, 0]]
         alphabet += [['extend', 1, None, [3, None], None], ['extend', 2, None, [1, None], None]]
+        alphabet += [['pubp', 1, 0, 0, L], ['pubp', 1, 0, 3, T], ['pubp', 2, 0, 0, T]]
         probes = [['segment', 1, None], ['validate', 2, None], ['copy', 2, None],
                   ['compose', [[[1, None], [2, None], [3, None]]]]]
         depth = 4 if not self.quick else 3 if self.escalation > 1 else 2  # (a depth, not a count: no scaling)
@@ -1461,6 +1524,9 @@ class C11(fw.Check):
         pubs = [p for p in range(n) if nodes[p].szout]
         for w in workers:
             for tp in pubs:
+                out += [['pubp', tp, 0, w, T], ['pubp', tp, 0, w, L]]
+        for w in workers:
+            for tp in pubs:
                 for lp in pubs[:3]:
                     out.append(['train', w, tp, 0, lp, 0])
         heads = [h for h in range(n) if nodes[h].szin <= 1]
@@ -1546,7 +1612,9 @@ class C11(fw.Check):
         w = entry['witness']
         ops, _, verdicts = run_sequence(w['ops'])
         want = entry.get('signature')
-        hits = [v for v in verdicts if want is None or v[1] == want] or verdicts
+        # the entry's own root cause, or anything that is not a listed finding (the witness of one finding may pass
+        # through the state of another one)
+        hits = [v for v in verdicts if want is None or v[1] == want] or [v for v in verdicts if v[1] not in KNOWN_SIGS]
         if hits:
             i, sig, what = hits[0]
             return fw.Violation(what, {'ops': ops[: i + 1]}, sig)
